@@ -1,1 +1,91 @@
-/-! Property theorems for C15 (see /verif/DESIGN.md). Only property theorems and non-vacuity examples live here. -/
+import Proofs.C15
+/-!
+# C15 — cancellation stops execution promptly and is otherwise invisible
+
+Theorems about the step-counter model of the dispatch-loop poll (`GoawkModel.C15`), for every trace of dispatches (no
+bound on its length), every starting counter below the interval and every cancellation time; the interval is the
+constant regenerated from interp/newexecute.go, and the placement of the poll is a regenerated fact.
+-/
+namespace GoawkModel.PropsC15
+open GoawkModel.C15 GoawkModel.Generated
+
+/-- the interval the real code uses -/
+abbrev N : Nat := Consts.checkContextOps
+
+/-- "about a thousand": re-checked against the source on every run -/
+theorem poll_interval_small : 0 < Consts.checkContextOps ∧ Consts.checkContextOps ≤ 2000 := by decide
+
+/-- Where the poll is and who writes the counter, as the source says now: the poll is a statement of the one dispatch loop
+of `execute`, before the opcode switch (so every dispatch of every nested `execute` passes it); `checkContext` increments,
+compares with `checkContextOps`, resets and only then looks at Done; `ctxOps` is written only there and (to 0) by
+ExecuteContext — nested calls share it; `checkCtx` is assigned by Execute and ExecuteContext only. -/
+theorem gen_matches :
+    C15Poll.executeTopLevel = ["for ip := 0; ip < len(code); ", "return nil"] ∧
+    C15Poll.dispatchLoopHead =
+      ["op := code[ip]", "ip++", "if p.checkCtx { err := p.checkContext() if err != nil { return err } }"] ∧
+    C15Poll.dispatchSwitchTag = "op" ∧ C15Poll.dispatchAfterSwitch = 0 ∧
+    C15Poll.checkContextBody =
+      ["p.ctxOps++", "if p.ctxOps < checkContextOps { return nil }", "p.ctxOps = 0", "return p.checkContextNow()"] ∧
+    C15Poll.checkContextNowBody = ["select { case <-p.ctxDone: return p.ctx.Err() default: return nil }"] ∧
+    C15Poll.ctxFieldWrites = [
+      ("Execute", "p.interp.checkCtx = false"),
+      ("ExecuteContext", "p.interp.checkCtx = ctx != context.Background() && ctx != context.TODO()"),
+      ("ExecuteContext", "p.interp.ctx = ctx"),
+      ("ExecuteContext", "p.interp.ctxDone = ctx.Done()"),
+      ("ExecuteContext", "p.interp.ctxOps = 0"),
+      ("checkContext", "p.ctxOps++"),
+      ("checkContext", "p.ctxOps = 0")] ∧
+    C15Poll.pollCallSites = [
+      ("executeAll", "checkContextNow"), ("executeAll", "checkContextNow"), ("executeAll", "checkContextNow"),
+      ("checkContext", "checkContextNow"), ("execute", "checkContext")] := by decide
+
+/-- `0 ≤ ctxOps < checkContextOps` at every dispatch, whatever was executed before -/
+theorem counter_inv (n c : Nat) (hc : c < N) : counterAfter N n c < N :=
+  counterAfter_lt poll_interval_small.1 n c hc
+
+/-- … and it is exactly the number of dispatches modulo the interval (nested calls share it) -/
+theorem counter_is_steps_mod (n c : Nat) (hc : c < N) : counterAfter N n c = (c + n) % N :=
+  counterAfter_mod n c hc
+
+/-- **Prompt.** If the context is cancelled at dispatch `τ` and the program still has `N` dispatches to go from there,
+the run returns the context's error at a dispatch `j` with `τ ≤ j < τ + N` — never before the cancellation, and at most
+`N - 1` further dispatches execute after it. -/
+theorem prompt (τ : Nat) (ds : List D) (c : Nat) (hc : c < N) (hlen : τ + N ≤ ds.length) :
+    ∃ j cc kk, run N (some τ) ds 0 c ⟨0, 0⟩ = .ctxErr j cc kk ∧ τ ≤ j ∧ j < τ + N := by
+  have := prompt_aux (N := N) poll_interval_small.1 τ ds 0 c ⟨0, 0⟩ hc (Nat.zero_le _) (by simpa using hlen)
+  exact this
+
+/-- a pre-cancelled context (τ = 0) stops the run within the first `N` dispatches -/
+theorem prompt_precancelled (ds : List D) (hlen : N ≤ ds.length) :
+    ∃ j cc kk, run N (some 0) ds 0 0 ⟨0, 0⟩ = .ctxErr j cc kk ∧ j < N := by
+  obtain ⟨j, cc, kk, he, _, h2⟩ := prompt 0 ds 0 poll_interval_small.1 (by simpa using hlen)
+  exact ⟨j, cc, kk, he, by simpa using h2⟩
+
+/-- the number of tick() calls made after the cancellation is below the interval -/
+theorem ticks_after_cancel_bounded (τ : Nat) (ds : List D) (c : Nat) (hc : c < N) (hlen : τ + N ≤ ds.length) :
+    ∃ j cc kk, run N (some τ) ds 0 c ⟨0, 0⟩ = .ctxErr j cc kk ∧ kk.ticksAfter < N := by
+  obtain ⟨j, cc, kk, he, h1, h2⟩ := prompt τ ds c hc hlen
+  refine ⟨j, cc, kk, he, ?_⟩
+  have hb := (ticksAfter_bound τ ds 0 c ⟨0, 0⟩ j cc kk he).1
+  have e1 : max 0 τ = τ := by omega
+  have e2 : max j τ = j := by omega
+  simp only [e1, e2] at hb
+  omega
+
+/-- **Invisible.** With a context that is never cancelled the run finishes and makes exactly the tick() calls the loop
+without the poll (plain `Execute`) makes. -/
+theorem never_cancelled (ds : List D) (c : Nat) :
+    run N none ds 0 c ⟨0, 0⟩ = .finished (counterAfter N ds.length c) (runNoPoll ds ⟨0, 0⟩) :=
+  never_cancelled_aux N ds 0 c ⟨0, 0⟩
+
+/-- Non-vacuity (with a small interval so that the kernel can evaluate it): the loop shape cancelled in its 2nd iteration
+under an interval of 50 is stopped by the poll of dispatch 49 after 5 tick() calls, 3 of them after the cancellation;
+the trace is long enough for `prompt`. With the real interval the driver gives 91 / 86 at dispatch 999 for P = 5, which is
+what the real interpreter shows in the harness. -/
+example : run 50 (some (loopCancelIndex 2 + 1)) (loopTrace 2 8) 0 0 ⟨0, 0⟩ = .ctxErr 49 0 ⟨5, 3⟩ := by decide
+
+example : (loopCancelIndex 2 + 1) + 50 ≤ (loopTrace 2 8).length := by decide
+
+example : run 50 none (loopTrace 2 8) 0 0 ⟨0, 0⟩ = .finished 42 ⟨8, 0⟩ := by decide
+
+end GoawkModel.PropsC15
